@@ -187,7 +187,8 @@ Section Run.
   Fixpoint iter_last (fuel : nat) (i : nat) (acc : option elem) : M (option elem) :=
     match fuel with
     | O => ret acc
-    | S fuel => r <- iter_front i ;;
+    | S fuel => (* Iterator::last is a fold: when next() unwinds, the element held so far is dropped *)
+                r <- on_unwind (iter_front i) (match acc with Some a => drop_elem cfg a | None => ret tt end) ;;
                 match r with
                 | Some e => (match acc with Some a => drop_elem cfg a | None => ret tt end) ;;; iter_last fuel i (Some e)
                 | None => ret acc
